@@ -43,7 +43,8 @@ msg_to = Fn(F, ["impl OpaqueIpcMessage", "to"], ret="r", extra_params=TLS,
                "final(tls).de_channels@ == old(tls).de_channels@ && final(tls).de_regions@ == old(tls).de_regions@\n"
                "&& final(tls).ser_channels@ == old(tls).ser_channels@ && final(tls).ser_regions@ == old(tls).ser_regions@", ["C14", "C16"]),
     ],
-    rules=[MutSelf(), R_TAKE, T_DE_CH, T_DE_RG, Rule("B7", r"bincode::deserialize\(&self\.data\[\.\.\]\)", "bincode_deserialize(&this.data[..], tls)", "dependency: bincode + the user's Deserialize impls", min_count=1)],
+    rules=[MutSelf(), R_TAKE, T_DE_CH, T_DE_RG, Rule("B7", r"bincode::deserialize\(&self\.data\[\.\.\]\)", "bincode_deserialize(&this.data[..], tls)", "dependency: bincode + the user's Deserialize impls"),
+           Rule("B7b", r"bincode::deserialize_from\(&self\.data\[\.\.\]\)", "bincode_deserialize_from(&this.data[..], tls)", "dependency: bincode's reader entry point (not total)")],
     safety_props=["C16", "C18"])
 
 ser_sender = Fn(F, ["serialize_os_ipc_sender"], ret="r", extra_params=TLS,
@@ -151,6 +152,7 @@ UNIT = Unit(
     prelude_clauses={
         "unix.OsOpaqueIpcChannel.to_sender/requires.not_already_taken": ["C16"],
         "unix.OsOpaqueIpcChannel.to_receiver/requires.not_already_taken": ["C16"],
+        "ipc.OpaqueIpcMessage.to/requires.decoder_bounds_allocations_by_the_input": ["C16"],
     },
     kernel_clauses=[
         "serde/bincode: while a value is (de)serialised, user impls only append to the serialisation lists / take from the deserialisation lists and may perform complete nested sends (ser_step / de_step)",
